@@ -1,6 +1,6 @@
 SPECIFICATION Spec
 CONSTANTS
-  MaxLen = 3
+  MaxLen = 2
   Streams <- StreamsVal
   Opts <- OptsVal
 INVARIANTS OnlySelected EachOnce OrderedUnlessSorted CompleteAtEnd UnsortedDeterministic SelLaws
